@@ -1,6 +1,8 @@
 pub mod catp;
 pub mod credp;
 pub mod encp;
+pub mod grpp;
+pub mod offp;
 pub mod plogp;
 pub mod plogp2;
 
@@ -14,6 +16,8 @@ pub fn plan(prop: &str, tier: &str) -> Option<(PropMeta, Vec<Job>)> {
         "C05" | "C06" => Some(catp::plan(prop, tier)),
         "C10" => Some(credp::plan(tier)),
         "C19" => Some(encp::plan(tier)),
+        "C07" => Some(offp::plan(tier)),
+        "C08" => Some(grpp::plan(tier)),
         _ => None,
     }
 }
@@ -25,6 +29,8 @@ pub fn run_job(job: &Job) -> JobResult {
         "C05" | "C06" => catp::run_job(job),
         "C10" => credp::run_job(job),
         "C19" => encp::run_job(job),
+        "C07" => offp::run_job(job),
+        "C08" => grpp::run_job(job),
         p => JobResult { machinery_error: Some(format!("unknown property {p}")), ..Default::default() },
     }
 }
@@ -35,6 +41,8 @@ pub fn replay(prop: &str, replay: &Value) -> Vec<Violation> {
         Some("plog") => plogp::replay(prop, replay),
         Some("cat") => catp::replay(prop, replay),
         Some("enc") => encp::replay(replay),
+        Some("off") => offp::replay(replay),
+        Some("grp") => grpp::replay(replay),
         _ => Vec::new(),
     }
 }
